@@ -2,7 +2,7 @@
    Statements only (specification side; the sources and the Directory / RecursiveDirectory assets
    are compared with it by `srcdiff`, unreadable sub-directories by `sysdiff`). *)
 From Coq Require Import List String NArith Bool.
-From AM Require Import Rust.Ast Gen.Dirs Ref.Tree Proofs.Tree Tie.Dirs.
+From AM Require Import Rust.Ast Gen.Dirs Ref.Tree Proofs.Tree Tie.Dirs Gen.Archive Tie.Archive.
 Import ListNotations.
 
 Theorem C11_dir_ids_are_exactly_the_matching_files : forall t exts d l,
@@ -30,3 +30,13 @@ Theorem C11_code_as_specified :
   arc_forwards Arc_sub_directories "sub_directories" = true /\
   dir_load_wf Directory_load = true /\ rec_load_wf RecursiveDirectory_load = true.
 Proof. exact dirs_as_specified. Qed.
+
+(* the archive sources build the listing a directory asset reads as modelled: a directory enters its
+   parent's listing exactly once (register_dir returns on a directory it already knows), a file once
+   per member; read_dir hands out that listing (Ref/Archive.v, proved equal to the tree's listing in
+   Props/C04.v) *)
+Theorem C11_code_archives_list_each_entry_once :
+  register_dir_wf zip_register_dir = true /\ register_dir_wf tar_register_dir = true /\
+  register_file_wf zip_register_file = true /\ register_file_wf tar_register_file = true /\
+  read_dir_wf zip_read_dir = true /\ read_dir_wf tar_read_dir = true.
+Proof. exact archives_list_each_entry_once. Qed.
